@@ -527,6 +527,7 @@ tp_res_get(tp_res_stats *out) {
 	out->double_free = st_double_free;
 	out->close_unknown = st_close_unknown;
 	out->mutex_gone = atomic_load(&st_mutex_gone);
+	out->bad_joins = g_cap.bad_joins;
 	pthread_mutex_unlock(&rt_lock);
 	for (i = 0; i < F_LAST; i ++) {
 		out->calls[i] = atomic_load(&g_calls[i]);
